@@ -15,6 +15,7 @@ HISTORY = [
     ("macro-def-then-fail", "low_rom", "*=0x008000\n.macro helper(v) {\n.db v\n}\nhelper(1)\nlda.w undefined_symbol\n"),
     ("symbols", "low_rom", "*=0x018000\nshared := 0x42\nstart:\nK = 7\n.db shared, K\n"),
     ("custom-map", "low_rom", ".map identifier=1 bank_range=0xc0,0xff addr_range=0x8000,0xffff mask=0x8000\n*=0xc08000\n.db 1\n"),
+    ("custom-map-mirrored", "low_rom", ".map identifier=1 bank_range=0x00,0x3f addr_range=0x8000,0xffff mask=0x8000 mirror_bank_range=0x80,0xbf\n*=0x808000\n.db 1\n"),
     ("custom-map-2", "low_rom", ".map identifier=3 bank_range=0x00,0x3f addr_range=0x0000,0xffff mask=0x10000\n.map identifier=4 bank_range=0x7e,0x7f addr_range=0,0xffff mask=0x10000 writable=1\n*=0x001000\n.db 2\n"),
     ("hirom", "high_rom", "*=0xC00000\nlda #1\n*=0x7E0000\n"),
     ("scan-error", "low_rom", "*=0x008000\nlda $12\n"),
@@ -35,6 +36,9 @@ PROBES = [
     ("scope-export", "low_rom", "*=0x008000\n.dw lib.entry\n"),
     ("text-without-table", "low_rom", "*=0x008000\n.text 'ab'\n"),
     ("plain", "low_rom", "*=0x00FFFE\nlda #0x12\nsta.l 0x7E0000\nrts\n"),
+    # a `.map` that leaves the optional attributes out gets the directive's defaults (ROM, no mirror) -- not what an earlier `.map` of the process said
+    ("map-without-optional-attributes", "low_rom", ".map identifier=5 bank_range=0x00,0x3f addr_range=0x8000,0xffff mask=0x8000\n*=0x018000\n.db 7\nhere:\n.dl here\n"),
+    ("map-without-mirror-then-mirror-bank", "low_rom", ".map identifier=5 bank_range=0x00,0x3f addr_range=0x8000,0xffff mask=0x8000\n*=0x808000\nnop\n"),
     # a terminating recursion 400 applications deep: beyond the interpreter's default recursion limit, so it fails -- alone and after any history alike
     ("deep-recursion", "low_rom", "*=0x008000\n.macro down(n) {\n.db n & 0xFF\n.if n {\ndown(n - 1)\n}\n}\ndown(400)\n"),
 ]
@@ -170,7 +174,7 @@ def run(tier, seed):
     for _ in range(120 if tier == "thorough" else 25):
         cases.append({"history": [rng.randrange(len(HISTORY)) for _ in range(rng.randint(2, 5))], "probe": rng.randrange(len(PROBES))})
     if tier != "thorough":
-        cases = [c for i, c in enumerate(cases) if len(c["history"]) > 1 or (i * 7 + seed) % 3 == 0 or HISTORY[c["history"][0]][0] in ("macro-def", "custom-map", "custom-map-2", "macro-def-then-fail", "big-table")]
+        cases = [c for i, c in enumerate(cases) if len(c["history"]) > 1 or (i * 7 + seed) % 3 == 0 or HISTORY[c["history"][0]][0] in ("macro-def", "custom-map", "custom-map-2", "custom-map-mirrored", "macro-def-then-fail", "big-table")]
     failures = []
     for c in cases:
         f = check(c)
